@@ -50,10 +50,14 @@ IfDev(cond, p, code, detail) == IF cond THEN {} ELSE D(p, code, detail)
 
 \* ---------------------------------------------------------------------------------------------
 \* grammar
-MkX == LET canon == Canon  cc == CanonClosures(canon) IN
-       [canon |-> canon, cc |-> cc,
-        islr1 |-> \A k \in canon : ~ConflictIn(cc[k]),
-        cyclic |-> Cyclic, allprod |-> AllProductive]
+\* (the canonical LR(1) collection can be large; it is only built for the checks that use it)
+NeedCanon == On("CHK_C01") \/ On("CHK_C02") \/ On("CHK_C04")
+MkX == IF NeedCanon
+       THEN LET canon == Canon  cc == CanonClosures(canon) IN
+            [canon |-> canon, cc |-> cc,
+             islr1 |-> \A k \in canon : ~ConflictIn(cc[k]),
+             cyclic |-> Cyclic, allprod |-> AllProductive]
+       ELSE [canon |-> { {} }, cc |-> <<>>, islr1 |-> FALSE, cyclic |-> Cyclic, allprod |-> AllProductive]
 
 \* ---------------------------------------------------------------------------------------------
 \* C17: analyses
